@@ -191,9 +191,15 @@ def _minmax(engine, st, fr, name, a, node):
     raise Unsupported("%s%r" % (name, tuple(a)))
 
 
+py_isinstance = z3.Function("py_isinstance", Val, Val, B)
+
+
 def _isinstance(engine, st, x, c):
     x = engine.resolve(st, x)
     c = engine.resolve(st, c)
+    if isinstance(c, Z):
+        # class object only known symbolically (user-supplied exception_base): uninterpreted, pure
+        return Z(py_isinstance(engine.to_val(st, x), c.t), "bool")
     names = [k.name for k in (c.items if isinstance(c, TupleV) else [c])]
     if x is None:
         return False
